@@ -145,8 +145,25 @@ class Overlay:
                 add += AST_EMPTY_CTOR
             with open(tpath, "a") as f:
                 f.write(add)
+        # crate-level attributes a harness file asks for (//@@ crate_attr: ...), under cfg(kani) only, at the top of the crate root
+        roots = {}
+        for hf, target in harness_files:
+            for ln in open(hf):
+                m = re.match(r"\s*//@@\s*crate_attr:\s*(.*)$", ln)
+                if m:
+                    pkg = target.split("/src/")[0]
+                    root = "main.rs" if self.group == "sbin" else "lib.rs"
+                    roots.setdefault(os.path.join(self.path, pkg, "src", root), set()).add(m.group(1).strip())
+        for rp, attrs in roots.items():
+            body = open(rp).read()
+            with open(rp, "w") as f:
+                f.write("".join(f"#![cfg_attr(kani, {a})]\n" for a in sorted(attrs)) + body)
 
     def close(self):
+        if os.environ.get("VERIF_KEEP"):
+            keep = os.path.join(SCRATCH_ROOT, "slicec-verif", "kept-" + self.group)
+            shutil.rmtree(keep, ignore_errors=True)
+            shutil.move(self.side, keep)
         shutil.rmtree(self.path, ignore_errors=True)
         shutil.rmtree(self.side, ignore_errors=True)
         try:
@@ -248,7 +265,7 @@ def run_group(ov, group, harnesses, jobs, mem_kb, tier):
     return results, wall, text
 
 
-CHECK_RE = re.compile(r"^Check (\d+): (\S+)\n\t - Status: (\w+)\n\t - Description: \"(.*?)\"\n(?:\t - Location: (.*?)\n)?", re.M | re.S)
+CHECK_RE = re.compile(r"^Check (\d+): ([^\n]+)\n\t - Status: (\w+)\n\t - Description: \"(.*?)\"\n(?:\t - Location: ([^\n]*)\n)?", re.M | re.S)
 
 
 def parse_result(h, path, side, fulltext):
@@ -305,7 +322,7 @@ def parse_result(h, path, side, fulltext):
             continue
         if status == "FAILURE":
             failed.append(dict(name=name, desc=desc, loc=short_loc(loc), func=loc.split(" in function ")[-1] if loc else ""))
-        elif status == "UNDETERMINED":
+        elif status in ("UNDETERMINED", "ERROR"):
             undet += 1
     r["covers"], r["failed"], r["checks_failed"], r["undetermined"] = covers, failed, len(failed), undet
     m = re.search(r"VERIFICATION:- (\w+)", txt)
@@ -314,10 +331,14 @@ def parse_result(h, path, side, fulltext):
     m = re.search(r"Verification Time: ([0-9.]+)s", txt)
     if m:
         r["verification_time_s"] = round(float(m.group(1)), 2)
+    if "CBMC timed out" in txt:
+        r["reason"] = "CBMC timed out (harness time limit)"
+        return r
+    if "CBMC failed" in txt and not checks:
+        r["reason"] = "CBMC failed without results (out of memory under the address-space cap, or crashed)"
+        return r
     if verdict is None:
         r["reason"] = "no verdict (CBMC error / timeout / out of memory)"
-        if "CBMC failed" in txt or "CBMC timed out" in txt or "timed out" in txt:
-            r["reason"] = "CBMC timed out or failed"
         return r
     unwind_fail = [f for f in failed if ".unwind." in f["name"] or "unwinding assertion" in f["desc"]]
     unsupported = [f for f in failed if "unsupported_construct" in f["name"] or "is not currently supported by Kani" in f["desc"]]
@@ -330,10 +351,10 @@ def parse_result(h, path, side, fulltext):
     elif real:
         r["status"] = "failed"
         r["real_failed"] = real
-    elif verdict != "SUCCESSFUL":
-        r["reason"] = "verdict " + verdict + " without a failed check (solver error?)"
     elif undet:
-        r["reason"] = f"{undet} undetermined checks"
+        r["reason"] = f"{undet} checks undetermined / in error (solver out of memory under the address-space cap, or an earlier unwinding failure)"
+    elif verdict != "SUCCESSFUL":
+        r["reason"] = "verdict " + verdict + " without a failed check"
     elif unsat_cov:
         r["reason"] = "witness not reachable (possible vacuity): " + "; ".join(c["desc"] for c in unsat_cov[:4])
     else:
@@ -368,18 +389,29 @@ def concrete_playback(ov, h, mem_kb):
     env = kani_env(ov.side, mem_kb, h.timeout)
     p = subprocess.run(cmd, executable=kani_exe(), cwd=pkgdir, env=env, stdout=subprocess.PIPE, stderr=subprocess.STDOUT, text=True, errors="replace")
     out = p.stdout
-    m = re.search(r"```\n(.*?#\[test\].*?)```", out, re.S)
-    if not m:
-        return dict(ok=False, why="Kani produced no concrete playback test", log=out[-3000:])
-    test_src = m.group(1)
-    tm = re.search(r"fn (kani_concrete_playback_\w+)", test_src)
-    tname = tm.group(1)
+    # Kani prints one unit test per failed check and per satisfied cover; only the failed checks are counterexamples
+    blocks = re.findall(r"```\n(.*?#\[test\].*?)```", out, re.S)
+    blocks = [b for b in blocks if not re.search(r"Check for `cover`", b)]
+    if not blocks:
+        # a harness without symbolic input has no values to play back: the native replay is the harness itself
+        blocks = ["/// Synthetic playback for a harness whose failing path needs no symbolic value\n#[test]\nfn kani_concrete_playback_"
+                  + h.fn + "_0() {\n    let concrete_vals: Vec<Vec<u8>> = vec![];\n    kani::concrete_playback_run(concrete_vals, " + h.fn + ");\n}\n"]
+    seen, uniq = set(), []
+    for b in blocks:
+        nm = re.search(r"fn (kani_concrete_playback_\w+)", b)
+        if nm and nm.group(1) not in seen:
+            seen.add(nm.group(1))
+            uniq.append(b)
+    blocks = uniq[:4]
+    test_src = "\n".join(blocks)
+    tnames = re.findall(r"fn (kani_concrete_playback_\w+)", test_src)
     hcopy = os.path.join(ov.path, ".verif_h", os.path.basename(h.file))
     with open(hcopy, "a") as f:
         f.write(wrap_playback(h, test_src))
-    # decoded concrete values: each `vec![..]` line is one kani::any() call in program order
-    vals = re.findall(r"//\s*(.+)\n\s*vec!\[([0-9, ]*)\]", test_src)
-    res = dict(ok=True, test=test_src, test_name=tname, values=[dict(value=v.strip(), bytes=[int(x) for x in b.split(",") if x.strip()]) for v, b in vals])
+    # decoded concrete values of the first counterexample: each `vec![..]` line is one kani::any() call in program order
+    vals = re.findall(r"//\s*(.+)\n\s*vec!\[([0-9, ]*)\]", blocks[0])
+    res = dict(ok=True, test=test_src, test_names=tnames, checks=re.findall(r"Check for `(\w+)`: \"(.*?)\"", test_src),
+               values=[dict(value=v.strip(), bytes=[int(x) for x in b.split(",") if x.strip()]) for v, b in vals])
     runs = {}
     # dev = the profile Kani models (debug assertions, overflow checks); "release-like" = the same test built with
     # optimisation and without debug assertions / overflow checks (cargo kani playback has no --release switch)
@@ -387,13 +419,14 @@ def concrete_playback(ov, h, mem_kb):
            "CARGO_PROFILE_DEV_OPT_LEVEL": "3", "CARGO_PROFILE_DEV_DEBUG_ASSERTIONS": "false", "CARGO_PROFILE_DEV_OVERFLOW_CHECKS": "false"}
     for prof, extra_env in (("dev", {}), ("release-like", rel)):
         env2 = dict(ENV_BASE, CARGO_TARGET_DIR=os.path.join(CACHE, "playback-" + h.group + "-" + prof), **extra_env)
-        c = ["cargo", "kani", "playback", "-Z", "concrete-playback"] + g["target"] + ["--", tname]
+        c = ["cargo", "kani", "playback", "-Z", "concrete-playback"] + g["target"] + ["--", "kani_concrete_playback_" + h.fn + "_"]
         pp = subprocess.run(c, cwd=pkgdir, env=env2, stdout=subprocess.PIPE, stderr=subprocess.STDOUT, text=True, errors="replace")
         o = pp.stdout
-        ran = re.search(r"test \S*" + re.escape(tname) + r" \.\.\. (\w+)", o)
-        pm = re.search(r"panicked at ([^\n]*)\n([^\n]*)", o)
+        ran = re.findall(r"test \S*(kani_concrete_playback_\w+) \.\.\. (\w+)", o)
+        pm = re.findall(r"panicked at ([^\n]*)\n([^\n]*)", o)
         errs = "\n".join(l for l in o.split("\n") if l.startswith("error"))[:800]
-        runs[prof] = dict(rc=pp.returncode, outcome=(ran.group(1) if ran else "not-run"), panic=(short_loc(pm.group(1)) + " | " + pm.group(2)) if pm else None,
+        runs[prof] = dict(rc=pp.returncode, outcome=("FAILED" if any(x[1] == "FAILED" for x in ran) else ("ok" if ran else "not-run")),
+                          tests={a: b for a, b in ran}, panics=[short_loc(a) + " | " + b for a, b in pm][:4],
                           tail=(errs + " ... " + o[-600:]) if not ran else "")
     res["native"] = runs
     res["reproduced"] = any(v["outcome"] == "FAILED" for v in runs.values())
@@ -631,7 +664,7 @@ def cmd_replay(args):
         hcopy = os.path.join(ov.path, ".verif_h", os.path.basename(h.file))
         with open(hcopy, "a") as f:
             f.write(wrap_playback(h, d["playback_test"]))
-        tname = re.search(r"fn (kani_concrete_playback_\w+)", d["playback_test"]).group(1)
+        tname = "kani_concrete_playback_" + h.fn + "_"
         g = GROUPS[h.group]
         env2 = dict(ENV_BASE, CARGO_TARGET_DIR=os.path.join(CACHE, "playback-" + h.group))
         p = subprocess.run(["cargo", "kani", "playback", "-Z", "concrete-playback"] + g["target"] + ["--", tname],
